@@ -12,7 +12,7 @@ import vlib
 
 PROPS = ["C01", "C02", "C03", "C13", "C14"]
 
-PROC_NOTE = ("Histories are replayed twice: by calling the handlers directly and through the real Processor.Run select loop; they include "
+PROC_NOTE = ("Histories are replayed twice: by calling the handlers directly (each call under a stall watchdog) and through the real Processor.Run select loop; they include "
              "guardian-set rotations, process restarts on the same store, store faults and a full outbound request queue. "
              "Trusted: TLC, the Go toolchain, ECDSA/Keccak. The exhaustive run is at scaled constants (3-4 keys, 2 digests); "
              "the bridge to real sizes (sets of 1..19, real keys, real Badger store) is trace validation of replayed TLC "
@@ -33,8 +33,11 @@ MANIFEST = {
                      "generators) run on the real handlers under recover(); a panic is a trace line no specification action matches.",
                 ref="6/C13", note=PROC_NOTE, technique="TLA+ specification as generator/oracle (TLC) + trace validation; panic = rejected line"),
     "C14": dict(text="Cleanup decision table model-checked with scaled thresholds (NoEarlyDiscard, RetryCadence, RetryOnlyWhenDue); the real "
-                     "handleCleanup is validated on histories of ticks and elapsed durations from 1 s to 120 h.",
-                ref="6/C14", note=PROC_NOTE, technique="TLA+ model checking (TLC) + trace validation of handleCleanup with simulated time"),
+                     "handleCleanup is validated on histories of ticks and elapsed durations from 1 s to 120 h, with a full outbound "
+                     "request queue and with an unbuffered broadcast queue whose reader is busy; the fairness assumption of CleanupTick "
+                     "is checked in real time on the real Run loop and its real tick source under steady gossip (one tick period).",
+                ref="6/C14", note=PROC_NOTE, technique="TLA+ model checking (TLC) + trace validation of handleCleanup with simulated time + "
+                                                        "real-time check of the tick source (fairness assumption of the specification)"),
 }
 
 
